@@ -1,12 +1,16 @@
-"""Run the checks against every confirmed seeded change: apply seeded/<id>/patch.diff to /repo, run the quick
-check of the property it breaks (and optionally all checks), undo.  Not a registered check.
+"""Run the checks against every confirmed seeded change: a scratch worktree of /repo HEAD gets
+seeded/<id>/patch.diff applied and the quick check of the property it breaks (or all checks) is run against it
+(MVF_REPO).  Not a registered check.      python -m mvf.seed_sweep [--all-checks]  -> /verif/seeded/sweep.json
 
-    python -m mvf.seed_sweep [--all-checks]      -> /verif/seeded/sweep.json
+The same can be done in place, as the brief describes:
+    git -C /repo apply /verif/seeded/<id>/patch.diff; ./check <ID> quick; git -C /repo checkout -- .
 """
 import json
 import os
+import shutil
 import subprocess
 import sys
+import tempfile
 
 VERIF = os.path.dirname(os.path.dirname(os.path.abspath(__file__)))
 REPO = "/repo"
@@ -16,8 +20,6 @@ def main():
     allc = "--all-checks" in sys.argv
     out = {}
     props_all = [c["property_id"] for c in json.load(open(os.path.join(VERIF, "MANIFEST.json")))["checks"]]
-    assert subprocess.run(["git", "-C", REPO, "status", "--porcelain", "--", "mosaik"], capture_output=True,
-                          text=True).stdout.strip() == "", "repo not clean"
     for d in sorted(os.listdir(os.path.join(VERIF, "seeded"))):
         patch = os.path.join(VERIF, "seeded", d, "patch.diff")
         if not os.path.exists(patch):
@@ -25,19 +27,23 @@ def main():
         meta = json.load(open(os.path.join(VERIF, "seeded", d, "meta.json")))
         target = meta["breaks_property"]
         props = props_all if allc else [target]
+        wt = tempfile.mkdtemp(prefix="mvf_seed_")
+        os.rmdir(wt)
         try:
-            subprocess.run(["git", "-C", REPO, "apply", patch], check=True)
+            subprocess.run(["git", "-C", REPO, "worktree", "add", "-q", "--detach", wt, "HEAD"], check=True)
+            subprocess.run(["git", "-C", wt, "apply", patch], check=True)
             row = {}
             for p in props:
-                env = dict(os.environ, MVF_NO_EVIDENCE="1")
+                env = dict(os.environ, MVF_NO_EVIDENCE="1", MVF_REPO=wt)
                 r = subprocess.run([os.path.join(VERIF, "check"), p, "quick"], env=env, capture_output=True, text=True,
                                    timeout=1500)
                 rules = sorted({l.split("rule=")[1].split()[0] for l in r.stdout.splitlines() if "rule=" in l})
                 row[p] = {"rc": r.returncode, "rules": rules[:5]}
             out[d] = {"breaks": target, "checks": row}
-            print(d, {k: (v["rc"], v["rules"][:2]) for k, v in row.items() if v["rc"] != 0 or k == target}, flush=True)
+            print(d, {k: (v["rc"], v["rules"][:3]) for k, v in row.items() if v["rc"] != 0 or k == target}, flush=True)
         finally:
-            subprocess.run(["git", "-C", REPO, "checkout", "--", "."], check=True)
+            subprocess.run(["git", "-C", REPO, "worktree", "remove", "--force", wt], check=False)
+            shutil.rmtree(wt, ignore_errors=True)
     json.dump(out, open(os.path.join(VERIF, "seeded", "sweep.json"), "w"), indent=1)
 
 
